@@ -88,6 +88,13 @@ impl<'g> Cx<'g> {
         format!("t{}", self.tmp)
     }
 
+    pub fn tmp_mark(&self) -> usize {
+        self.tmp
+    }
+    pub fn tmp_reset(&mut self, m: usize) {
+        self.tmp = m;
+    }
+
     pub fn declare(&mut self, name: &str, ty: Ty) {
         self.scopes.last_mut().unwrap().push((name.to_string(), ty));
     }
